@@ -66,6 +66,7 @@ struct simheap_stats g_hs;
 struct simheap_event g_hev[MAXHEV];
 int g_nhev;
 void (*g_sched_point)(int kind, const void *addr);
+void (*g_free_hook)(int id, void *ptr);
 const char *g_cur_prop = "C00";
 
 static void hev(int kind, int id, size_t size)
@@ -357,6 +358,7 @@ static void lib_free_idx(int i)
     g_hs.lib_frees++;
     g_hs.frees_in_op++;
     hev('F', i, b->size);
+    if (g_free_hook) g_free_hook(i, b->user);
     blk_release(b);
 }
 
